@@ -117,6 +117,41 @@ theorem C10_opaque_exact (size align : Nat) (hasBitfields : Bool) (ha : okAlign 
       have hcond : (isPow2 align && decide (align ≤ 2 ^ 29)) = true := by simp [hp, hle]
       rw [if_pos hcond, Nat.max_self, roundUp_of_dvd hpos hd]
 
+/-- region of known finding `blob_padding_overaligned`: `blob` asked for an alignment above 4 that does
+not divide the size (`StructLayoutTracker::pad_field` asks for `(padding_bytes, min(field_align, 8))`) -/
+def blobOverAligned (l : Layout) : Bool := max l.align 1 > 4 && l.size % max l.align 1 != 0
+
+theorem roundUp_dvd (n a : Nat) (ha : 0 < a) : a ∣ roundUp n a := by
+  unfold roundUp
+  have : a ≠ 0 := by omega
+  rw [if_neg this]
+  exact Nat.dvd_mul_left a _
+
+/-- In that region the wrapper `__BindgenOpaqueArray{align}<[u8; size]>` is strictly larger than the
+bytes asked for (for every size and power-of-two alignment): a padding field built from it moves the
+following fields. -/
+theorem C10_fails_on_overaligned_padding (size align : Nat) (ffi : Bool) (ha : 4 < align)
+    (hp : isPow2 align = true) (hb : align ≤ 2 ^ 29) (hd : ¬ align ∣ size) :
+    blobOverAligned ⟨size, align⟩ = true ∧
+    (blob ⟨size, align⟩ ffi).bind reprC = some (roundUp size align, align) ∧ roundUp size align ≠ size := by
+  have hmax : max align 1 = align := by omega
+  refine ⟨?_, ?_, ?_⟩
+  · unfold blobOverAligned
+    simp only [hmax, Bool.and_eq_true, decide_eq_true_eq, bne_iff_ne, ne_eq]
+    refine ⟨ha, ?_⟩
+    intro h
+    exact hd (Nat.dvd_of_mod_eq_zero h)
+  · have hnle : ¬ align ≤ 4 := by omega
+    unfold blob
+    simp only [hmax, hnle, if_false, Option.bind_some, reprC, hp, Bool.true_and]
+    have : decide (align ≤ 2 ^ 29) = true := by simpa using hb
+    rw [this]; simp
+  · intro h
+    exact hd (h ▸ roundUp_dvd size align (by omega))
+
+/-- the witness `struct W { char pre; struct O m0; }` with `O` aligned to 16: 15 padding bytes "aligned" to 8 -/
+example : (blob ⟨15, 8⟩ false).bind reprC = some (16, 8) := by decide
+
 /-! #### regions outside the hypotheses -/
 
 /-- alignment 3 (any non-power-of-two below 4): `known_type_for_size(3)` is `None`, `unwrap()` panics -/
